@@ -41,6 +41,7 @@ def required(tier):
         "layout.comments": 500,
         "layout.rule": 500,
         "layout.rule_chars": 300,
+        "layout.terminals_with_priority": 30,
         "layout.ws": 1000,
         "layout.custom_ws": 300,
         "augmented_production_checked": 100,
@@ -132,13 +133,22 @@ def one_grammar(ctx, g, alphabet, maxlen):
     rng = ctx.rng
     if len(alphabet) >= 3 and maxlen > 3:
         maxlen = 3
+    # layout terminals may carry a priority of their own (below or above the default): it only
+    # ranks real tokens among themselves
+    lp = rng.choice([None, None, 1, 5, 9, 15])
+    if lp is not None:
+        ctx.count("layout.terminals_with_priority")
+
+    def prio(terms):
+        return terms if lp is None else terms.replace(";", " {%d};" % lp)
+
     texts = {
         "ws": g.text(),
-        "rule": g.text(extra_rules=WS_LAYOUT.strip(), extra_terms=WS_TERMS),
-        "comments": g.text(extra_rules=COMMENT_LAYOUT.strip(), extra_terms=COMMENT_TERMS),
+        "rule": g.text(extra_rules=WS_LAYOUT.strip(), extra_terms=prio(WS_TERMS)),
+        "comments": g.text(extra_rules=COMMENT_LAYOUT.strip(), extra_terms=prio(COMMENT_TERMS) if rng.random() < 0.5 else COMMENT_TERMS),
         # the same whitespace layout spelled character by character (the layout grammar then
         # relies on the layout sub-parser's own conflict resolution)
-        "rule_chars": g.text(extra_rules=CHAR_LAYOUT.strip(), extra_terms=CHAR_TERMS),
+        "rule_chars": g.text(extra_rules=CHAR_LAYOUT.strip(), extra_terms=prio(CHAR_TERMS)),
         "custom_ws": g.text(),
     }
     built = {}
